@@ -163,8 +163,10 @@ func rulesC06(r *Run) {
 	ruleFailBranchStatus(r, "R4", smKey("BlockPreChecks"), smKey("runPreChecks"), "workflow.Block")
 	ruleJoinJ1(r, "R4", smKey("runPreChecks"), smKey("runBypasses")) // a gate that returns before joining its checks drops their verdict
 	ruleSkipRecoveredChecks(r, "R4")
+	ruleGateRunsContChecks(r, "R4", smKey("PlanPreChecks"), "workflow.Plan")
+	ruleGateRunsContChecks(r, "R4", smKey("BlockPreChecks"), "workflow.Block")
 	ruleContJoin(r, "R4", planMachine(r, "R4")) // a failing pre-check must end the scope Failed, not hang it in the drain of a channel nobody closes
-	r.Expect("R4", 20)
+	r.Expect("R4", 22)
 }
 
 // ruleRunBypasses: runBypasses returns true only when Wait's error is nil, and the
@@ -1634,4 +1636,110 @@ func ruleFixPrologue(r *Run, rule, key string) {
 		bad = "no test of the subject's `State.Status` against workflow.Running: terminal and not-started objects would be rewritten by recovery"
 	}
 	r.Check(rule, "fix-prologue:"+ShortFn(key), bpos, bad == "", "%s", orOK(bad, "non-Running objects are left untouched"))
+}
+
+// ruleGateRunsContChecks (D30): the pre-check gate of a scope also performs the first run of the
+// scope's ContChecks, so it may be passed without running anything only when there is nothing to run.
+// Decided by assume-and-refute: in the situation "PreChecks absent, ContChecks present" every returning
+// path of the gate state that is still possible launches (or calls) runChecksOnce on the ContChecks.
+// The events of runPreChecks are part of the state's paths (inlined), so it does not matter which of the
+// two functions holds the test that lets the scope pass.
+func ruleGateRunsContChecks(r *Run, rule, fnKey, owner string) {
+	fn := r.fnByKey(rule, fnKey)
+	if fn == nil {
+		return
+	}
+	fl, paths, ok := r.flowPaths(rule, fn)
+	if !ok {
+		return
+	}
+	info := fl.Info
+	short := ShortFn(fnKey)
+	isPre := fieldMatcher(info, owner, "PreChecks")
+	isCont := fieldMatcher(info, owner, "ContChecks")
+	atom := func(e ast.Expr) (string, bool, bool) {
+		if x, op, ok := IsNilCompare(info, e); ok {
+			switch {
+			case isPre(x):
+				return "pre-absent", op == token.NEQ, true
+			case isCont(x):
+				return "cont-absent", op == token.NEQ, true
+			}
+		}
+		if c, ok := ast.Unparen(e).(*ast.CallExpr); ok && len(c.Args) == 1 && CallAtom(info, e, pkgSM+".skipRecoveredChecks") {
+			// true exactly for a nil group (obligation skipRecoveredChecks:true-only-for-absent-group)
+			switch {
+			case isPre(ast.Unparen(c.Args[0])):
+				return "pre-absent", false, true
+			case isCont(ast.Unparen(c.Args[0])):
+				return "cont-absent", false, true
+			}
+		}
+		return "", false, false
+	}
+	// runsCont: the event runs the continuous checks once — a direct call, or a launch of a literal that does.
+	runsOn := func(root ast.Node) bool {
+		found := false
+		ast.Inspect(root, func(n ast.Node) bool {
+			if c, ok := n.(*ast.CallExpr); ok && !found {
+				if f, ok := calleeFunc(info, c); ok && FuncKey(f) == smKey("runChecksOnce") {
+					for _, a := range c.Args {
+						if isCont(ast.Unparen(a)) {
+							found = true
+						}
+					}
+				}
+			}
+			return !found
+		})
+		return found
+	}
+	asg := map[string]bool{"pre-absent": true, "cont-absent": false}
+	bad := ""
+	var bpos token.Pos = fn.Decl.Pos()
+	nRun, nPossible := 0, 0
+	for i := range paths {
+		p := &paths[i]
+		if p.Exit != ExitReturn {
+			continue
+		}
+		if PathRefuted(fl, p, -1, asg, atom) {
+			continue
+		}
+		nPossible++
+		ran := false
+		for _, e := range p.Ev {
+			if e.Kind != EvCall || e.Call == nil || e.Deferred {
+				continue
+			}
+			switch {
+			case IsCall(e, smKey("runChecksOnce")) && runsOn(e.Call):
+				ran = true
+			case IsCall(e, keyGroupGo):
+				if l := LitArg(e.Call); l != nil && runsOn(l) {
+					ran = true
+				}
+			case IsCall(e, smKey("runPreChecks")) && !e.Inlined && len(e.Call.Args) == 3 && isCont(ast.Unparen(e.Call.Args[2])):
+				ran = true // not expanded here: runPreChecks' own obligations (groupResultReturned, join) decide what it does with its third argument
+			}
+		}
+		if ran {
+			nRun++
+		} else if bad == "" {
+			bad = short + " can be passed (successor " + nextOf(fl, p) + ", exit guard " + ExitGuardKey(fl, p) + ") by a scope that has ContChecks but no PreChecks without the ContChecks having run once: its sequences would start before the continuous checks ever passed"
+			for _, e := range p.Ev {
+				if e.Kind == EvReturn && !e.Deferred && e.Depth == 0 {
+					bpos = e.Pos
+				}
+			}
+		}
+	}
+	if nPossible == 0 {
+		r.Unresolved(rule, short+" has a returning path for a scope with ContChecks and no PreChecks")
+		return
+	}
+	if nRun == 0 && bad == "" {
+		bad = short + " never runs the ContChecks"
+	}
+	r.Check(rule, short+":cont-only-scope-is-gated", bpos, bad == "", "%s", orOK(bad, "PreChecks absent ∧ ContChecks present ⇒ every exit ran the ContChecks once"))
 }
